@@ -180,7 +180,7 @@ fn run_tape(part: &str, tape: &[u8], cx: &mut Cx) -> Res {
         "related-secrets" => {
             // two round trips back to back on one thread that differ only in a related secret
             let h1 = gen_hide(&mut t);
-            let s2 = related_secret(&mut t, &h1.secret);
+            let s2 = related_secret_for(&mut t, &h1.secret, Some(h1.avp.attr.to_be_bytes()));
             let h2 = HideCase { avp: h1.avp.clone(), payload: h1.payload.clone(), secret: s2, rv: h1.rv, lp: h1.lp.clone(), ap: h1.ap };
             check_hide_reveal(&h1, cx)?;
             check_hide_reveal(&h2, cx)?;
